@@ -311,14 +311,35 @@ pub struct SinkFmtCase {
     pub entries: Vec<GenEntry>,
     pub script: WScript,
     pub kind: SinkKind,
+    /// how the formatter is bound to its output: false = output_to(writer), true =
+    /// output_to_makewriter(|| writer) (a fresh writer handle per entry, flush is a no-op)
+    #[serde(default)]
+    pub makewriter: bool,
 }
 
 pub fn check_sink_fmt(case: &SinkFmtCase) -> CaseResult {
-    let w = ScriptedWriter::new(case.script.clone());
+    if case.makewriter {
+        let w = ScriptedWriter::new(case.script.clone());
+        let emf = no_panic("emf-build", || case.cfg.build())?;
+        let maker = {
+            let w = w.clone();
+            move || w.clone()
+        };
+        check_sink_fmt_over(case, w, emf.output_to_makewriter(maker), false).map(|mut c| {
+            c.push("bound-through-makewriter");
+            c
+        })
+    } else {
+        let w = ScriptedWriter::new(case.script.clone());
+        let emf = no_panic("emf-build", || case.cfg.build())?;
+        check_sink_fmt_over(case, w.clone(), emf.output_to(w), true)
+    }
+}
+
+fn check_sink_fmt_over<S: EntryIoStream + Send + Sync + 'static>(case: &SinkFmtCase, w: ScriptedWriter, inner: S, writer_flushed: bool) -> CaseResult {
     let marks = Arc::new(Mutex::new(vec![]));
-    let emf = no_panic("emf-build", || case.cfg.build())?;
     let stream = Marking {
-        inner: emf.output_to(w.clone()),
+        inner,
         writer: w.clone(),
         marks: marks.clone(),
     };
@@ -359,7 +380,7 @@ pub fn check_sink_fmt(case: &SinkFmtCase) -> CaseResult {
     let calls = w.calls();
     let flushes = w.state.lock().unwrap().flush_calls;
     vensure!(
-        flushes == case.entries.len(),
+        flushes == case.entries.len() || !writer_flushed,
         "sink:flush-count",
         "FlushImmediately must flush after every entry: {} entries, {} flushes",
         case.entries.len(),
@@ -577,7 +598,7 @@ pub fn run(ctx: &mut Ctx) {
             if q { 8_000 } else { 200_000 },
         )
         .threads(threads)
-        .mandatory(&["ok-after-failure", "io-failure", "validation-failure", "sink-typed", "sink-any", "sink-boxed"]),
+        .mandatory(&["ok-after-failure", "io-failure", "validation-failure", "sink-typed", "sink-any", "sink-boxed", "bound-through-makewriter"]),
         || {
             (
                 arb_valid(true),
@@ -597,11 +618,13 @@ pub fn run(ctx: &mut Ctx) {
                         };
                         entries.push(e2);
                     }
+                    let makewriter = entries.len() % 3 == 0;
                     SinkFmtCase {
                         cfg,
                         entries,
                         script,
                         kind,
+                        makewriter,
                     }
                 })
         },
